@@ -390,7 +390,8 @@ def main():
 
     # gene-backed sources over the same genes produce the same stream - also when two of them are alive and draw in turns
     from geneticengine.random.sources import NativeRandomSource as _N
-    genes = [_N(77).randint(0, MAXS) for _ in range(24)]
+    _gs = _N(77)
+    genes = [_gs.randint(0, MAXS) for _ in range(24)]
     for cname, mk in (("GEListWrapper", lambda: GEList(list(genes))),
                       ("StackListWrapper", lambda: StackList(list(genes))),
                       ("StructuredListWrapper", lambda: StructuredListWrapper({"$infrastructure": list(genes), "k2": list(genes)}))):
